@@ -505,14 +505,27 @@ pub fn c04(sc: &Scenario, rr: &RunResult) -> Vec<Violation> {
             // still delivering batches when the budget ran out: a long run, not a verdict
             // (counted as "runs_out_of_budget" in the evidence) - unless a loop has already gone
             // past its iteration bound: that job would never end
-            for m in rr.meta.iter().filter(|m| m.pos == "loophead" && m.path.len() == 1) {
+            for m in rr.meta.iter().filter(|m| m.pos == "loophead") {
                 let Some(l) = loop_at(&sc.steps, &m.path) else { continue };
+                // a nested loop runs once per round of every enclosing loop
+                let mut bound = l.rounds + 1;
+                let mut k = m.path.len();
+                while k > 2 {
+                    k -= 2;
+                    match loop_at(&sc.steps, &m.path[..k]) {
+                        Some(o) => bound = bound.saturating_mul(o.rounds + 1),
+                        None => {
+                            bound = usize::MAX;
+                            break;
+                        }
+                    }
+                }
                 for ((p, c), hist) in rr.rec.probes.iter() {
                     if *p != m.id {
                         continue;
                     }
                     let rounds = hist.iter().filter(|r| r.kind == K_FAR).count();
-                    if rounds > l.rounds + 1 {
+                    if rounds > bound {
                         out.push(viol(
                             "C04",
                             "loop-exceeds-bound",
